@@ -12,6 +12,9 @@ fn fixtures() {
     for (name, case, note) in props::c03::fixtures() {
         write_fixture("C03", name, &case, note);
     }
+    for (name, case, note) in props::c06::fixtures() {
+        write_fixture("C06", name, &case, note);
+    }
 }
 
 fn main() {
@@ -50,6 +53,7 @@ fn main() {
         "C03" => run_property(&props::c03::C03, &args),
         "C04" => run_property(&props::c04::C04, &args),
         "C05" => run_property(&props::c05::C05, &args),
+        "C06" => run_property(&props::c06::C06, &args),
         "C07" => run_property(&props::c07::C07, &args),
         "C08" => run_property(&props::c08::C08, &args),
         x => {
